@@ -1,1 +1,289 @@
-/-! Property theorems for C19 — placeholder until the property's model is built. -/
+import FcpptModel.Spec.C19
+import FcpptProofs.C19.Hist
+import FcpptProofs.C19.Conc
+/-!
+# C19 — property theorems (sequential part)
+
+For every root level, every history `ops` of `context::set` calls and log-object creations (all
+three constructors), every location and every log object created by the history:
+`context::get`, `object::level`, `object::enabled` and the text `object::log` writes are those the
+specification `levelOf` / `specText` prescribes.  Lemmas live in `FcpptProofs/C19/`.
+The concurrent part (interleaving model `FcpptModel/Model/C19/Conc.lean`) follows below.
+-/
+namespace Fcppt.C19
+
+/-- the hypotheses: levels are enumerators of `fcppt::log::level` (0 … 5) or empty -/
+def History.Valid (root : Level) (ops : List Op) : Prop := Level.Valid root ∧ ∀ op ∈ ops, op.Valid
+
+/-- **`context::get` = latest set on a prefix wins**, else the root level — for every history and location,
+whether or not a node exists at that location. -/
+theorem get_eq_latest_prefix (root : Level) (ops : List Op) (hv : History.Valid root ops) (loc : Loc) :
+    ctxGet (run root ops).tree loc = levelOf root (setsOf ops) loc := by
+  have h := SInv.run_ok hv.1 ops hv.2
+  unfold ctxGet
+  rw [h.inv.getInt loc]
+  exact fromInt_convertLevel (levelOf_valid hv.1 (setsOf_valid hv.2) loc)
+
+/-- **`object::level`** of every log object the history created: the reference it holds is valid (no fault)
+and the level read through it is `levelOf` of the object's location. -/
+theorem object_level_eq_latest_prefix (root : Level) (ops : List Op) (hv : History.Valid root ops)
+    (o : Obj) (ho : o ∈ (run root ops).objs) :
+    objLevel (run root ops).tree o = .ok (levelOf root (setsOf ops) o.node) := by
+  have h := SInv.run_ok hv.1 ops hv.2
+  have hex := h.objs o ho
+  unfold objLevel nodeLvl
+  cases hl : lvlAt (run root ops).tree o.node with
+  | none => simp [hl] at hex
+  | some l =>
+    rw [h.inv.level _ _ hl]
+    simp only [Except.map]
+    rw [fromInt_convertLevel (levelOf_valid hv.1 (setsOf_valid hv.2) o.node)]
+
+/-- **`object::enabled(l)`** holds exactly when the location's level is set and `l` is at least that level. -/
+theorem enabled_iff (root : Level) (ops : List Op) (hv : History.Valid root ops)
+    (o : Obj) (ho : o ∈ (run root ops).objs) (l : Nat) :
+    ∃ b, objEnabled (run root ops).tree o l = .ok b ∧
+      (b = true ↔ ∃ e, levelOf root (setsOf ops) o.node = some e ∧ e ≤ l) := by
+  unfold objEnabled
+  rw [object_level_eq_latest_prefix root ops hv o ho]
+  refine ⟨_, rfl, ?_⟩
+  unfold enabledAt
+  cases levelOf root (setsOf ops) o.node with
+  | none => simp
+  | some e => simp
+
+/-- **a message is emitted exactly when its level is enabled**, and **its text** is the object's formatter
+applied to the location prefixes (root first, `name: ` each, empty names skipped) applied to the level
+stream's formatter applied to the message.  `i` is the object's index, `f` the formatter it was created with. -/
+theorem emits_iff (root : Level) (ops : List Op) (hv : History.Valid root ops) (streams : Nat → OptFn)
+    (i : Nat) (o : Obj) (f : OptFn) (ho : (run root ops).objs[i]? = some o) (hf : (run root ops).fmts[i]? = some f)
+    (l : Nat) (msg : String) :
+    objLog (run root ops).tree streams o l msg =
+      .ok (if (∃ e, levelOf root (setsOf ops) o.node = some e ∧ e ≤ l)
+           then some (specText f (streams l) o.node msg) else none) := by
+  have h := SInv.run_ok hv.1 ops hv.2
+  have hmem : o ∈ (run root ops).objs := List.mem_of_getElem? ho
+  unfold objLog objEnabled
+  rw [object_level_eq_latest_prefix root ops hv o hmem, h.fmt i o f ho hf, streamLog_eq]
+  simp only [Except.map]
+  congr 1
+  unfold enabledAt
+  cases levelOf root (setsOf ops) o.node with
+  | none => simp
+  | some e => simp
+
+/-- **prefix order**: the text of `specText` spelled out — object formatter outermost, then the location's
+names root first, the level stream's formatter innermost. -/
+theorem prefix_order (f own : OptFn) (p : Loc) (msg : String) :
+    streamLog own (chain f (treeFormatter (toRootNames p))) msg
+      = (f.getD id) (prefixText p ((own.getD id) msg)) :=
+  streamLog_eq own f p msg
+
+/-- locations of created objects, as documented: name / location + name / parent's location + name -/
+theorem object_location_root (s : State) (name : String) (f : OptFn) :
+    ((step s (.objRoot name f)).objs.map Obj.node) = s.objs.map Obj.node ++ [[name]] := by
+  simp [step, State.add, objRoot, objAtNode]
+
+theorem object_location_at (s : State) (loc : Loc) (name : String) (f : OptFn) :
+    ((step s (.objAt loc name f)).objs.map Obj.node) = s.objs.map Obj.node ++ [loc ++ [name]] := by
+  simp [step, State.add, objAt, objAtNode]
+
+theorem object_location_child (s : State) (i : Nat) (p : Obj) (hp : s.objs[i]? = some p) (name : String) (f : OptFn) :
+    ((step s (.objChild i name f)).objs.map Obj.node) = s.objs.map Obj.node ++ [p.node ++ [name]] := by
+  simp [step, hp, State.add, objChild, objAtNode]
+
+/-- the spec itself: appending a `set` -/
+theorem levelOf_snoc (root : Level) (sets : List (Loc × Level)) (L : Loc) (v : Level) (loc : Loc) :
+    levelOf root (sets ++ [(L, v)]) loc = if L.isPrefixOf loc then v else levelOf root sets loc :=
+  levelOf_append root sets L v loc
+
+/-- the spec is "the last set whose location is a prefix, else the root level" -/
+theorem levelOf_spec (root : Level) (sets : List (Loc × Level)) (loc : Loc) :
+    (∃ pre L v post, sets = pre ++ (L, v) :: post ∧ L.isPrefixOf loc = true ∧
+        (∀ s ∈ post, s.1.isPrefixOf loc = false) ∧ levelOf root sets loc = v)
+    ∨ ((∀ s ∈ sets, s.1.isPrefixOf loc = false) ∧ levelOf root sets loc = root) := by
+  induction sets generalizing root with
+  | nil => right; simp [levelOf]
+  | cons s ss ih =>
+    obtain ⟨L, v⟩ := s
+    rw [levelOf_cons]
+    rcases ih (if L.isPrefixOf loc then v else root) with ⟨pre, L', v', post, he, hp, hpost, hl⟩ | ⟨hno, hl⟩
+    · left; exact ⟨(L, v) :: pre, L', v', post, by simp [he], hp, hpost, hl⟩
+    · by_cases h : L.isPrefixOf loc = true
+      · left; exact ⟨[], L, v, ss, by simp, h, hno, by simpa [h] using hl⟩
+      · right
+        refine ⟨?_, by simpa [h] using hl⟩
+        intro s hs
+        rcases List.mem_cons.mp hs with h1 | h1
+        · subst h1; exact Bool.eq_false_iff.mpr h
+        · exact hno s h1
+
+/-! ## Non-vacuity -/
+
+-- a history with sets on nested locations, objects through all three constructors, a disabled level
+def exampleOps : List Op :=
+  [.set ["a", "b"] (some 1), .objAt ["a"] "b" none, .objRoot "c" none, .set ["a"] none,
+   .objChild 0 "d" (some (fun s => "T<" ++ s ++ ">")), .set ["a", "b", "d"] (some 4), .set [] (some 2), .set ["a", "b"] (some 5)]
+
+example : History.Valid (some 3) exampleOps := by
+  refine ⟨by intro v h; cases h; decide, ?_⟩
+  intro op hop
+  simp [exampleOps] at hop
+  rcases hop with rfl | rfl | rfl | rfl | rfl | rfl | rfl | rfl <;> simp [Op.Valid, Level.Valid, levelCount]
+
+example : levelOf (some 3) (setsOf exampleOps) ["a", "b", "d"] = some 5 := by decide
+example : levelOf (some 3) (setsOf exampleOps) ["a", "x"] = some 2 := by decide
+example : levelOf (some 3) (setsOf (exampleOps.take 4)) ["a", "b", "d"] = none := by decide
+example : ((run (some 3) exampleOps).objs.map Obj.node) = [["a", "b"], ["c"], ["a", "b", "d"]] := by decide
+example : specText (some (fun s => "T<" ++ s ++ ">")) (some (defaultLevel 4)) ["a", "", "d"] "m" = "T<a: d: error: m\n>" := by decide
+
+
+/-! ## Concurrent part: every interleaving of the transcribed step system
+
+`Reachable root s`: `s` is reachable from a fresh context by any interleaving of any number of threads
+executing `set` / `get` / constructors / unlocked level loads in any order (`Conc.Step`).
+These theorems are about the transcription in `FcpptModel/Model/C19/Conc.lean`; that the transcription's
+lock/atomic annotations match the code is witnessed (sampled) by the ThreadSanitizer harness. -/
+open Conc
+
+/-- mutual exclusion: at most one thread is inside a `lock_guard` section -/
+theorem one_thread_in_critical_section (root : Level) (hr : Level.Valid root) {s : Sys} (h : Reachable root s)
+    (i j : Tid) (hi : (s.ph i).holds = true) (hj : (s.ph j).holds = true) : i = j := by
+  have he := (DInv.of_reachable hr h).excl
+  have h1 := (he i).mp hi
+  have h2 := (he j).mp hj
+  rw [h1] at h2
+  simpa using h2
+
+/-- **lock discipline**: every plain access to the tree structure and every level store is performed by the
+thread that owns the mutex -/
+theorem lock_discipline (root : Level) (hr : Level.Valid root) {s s' : Sys} {i : Tid} {acc : List Access}
+    (h : Reachable root s) (st : Step s i acc s') (a : Access) (ha : a ∈ acc)
+    (hg : (∃ w, a = .treePlain w) ∨ (∃ p x, a = .atomicStore p x)) : s.holder = some i := by
+  have he := (DInv.of_reachable hr h).excl
+  have own : (s.ph i).holds = true → s.holder = some i := (he i).mp
+  cases st with
+  | call c hi hv => simp at ha
+  | acquire c hi hfree => rcases hg with ⟨w, rfl⟩ | ⟨p, x, rfl⟩ <;> simp at ha
+  | setFind l v hi => exact own (by rw [hi]; rfl)
+  | setStore l v q todo hi => exact own (by rw [hi]; rfl)
+  | setDone l v hi => exact own (by rw [hi]; rfl)
+  | getRead l hi => exact own (by rw [hi]; rfl)
+  | createFind l hi => exact own (by rw [hi]; rfl)
+  | unlock after hi hna => exact own (by rw [hi]; rfl)
+  | format l hi => rcases hg with ⟨w, rfl⟩ | ⟨p, x, rfl⟩ <;> simp at ha
+  | load p val hi ho hl => rcases hg with ⟨w, rfl⟩ | ⟨p, x, rfl⟩ <;> simp at ha
+
+/-- no data race on the tree structure: in no reachable state do two different threads both have a plain
+structure access (or level store) enabled -/
+theorem no_conflicting_unsynchronised_accesses (root : Level) (hr : Level.Valid root) {s s₁ s₂ : Sys} {i j : Tid}
+    {a b : List Access} (h : Reachable root s) (st₁ : Step s i a s₁) (st₂ : Step s j b s₂)
+    (x y : Access) (hx : x ∈ a) (hy : y ∈ b)
+    (gx : (∃ w, x = .treePlain w) ∨ (∃ p v, x = .atomicStore p v))
+    (gy : (∃ w, y = .treePlain w) ∨ (∃ p v, y = .atomicStore p v)) : i = j := by
+  have h1 := lock_discipline root hr h st₁ x hx gx
+  have h2 := lock_discipline root hr h st₂ y hy gy
+  rw [h1] at h2
+  simpa using h2
+
+/-- the unlocked plain reads of `tree_formatter` (`name_`, `parent_`) only touch nodes that already exist,
+i.e. whose write-once fields were initialised in an earlier critical section -/
+theorem frozen_read_of_existing_node (root : Level) (hr : Level.Valid root) {s s' : Sys} {i : Tid} {acc : List Access}
+    (h : Reachable root s) (st : Step s i acc s') (p : Loc) (ha : Access.frozenRead p ∈ acc) :
+    (lvlAt s.tree p).isSome = true := by
+  have hd := DInv.of_reachable hr h
+  cases st with
+  | format l hi =>
+    simp only [List.mem_map] at ha
+    obtain ⟨q, hq, he⟩ := ha
+    injection he with he; subst he
+    unfold prefixes at hq
+    obtain ⟨k, _, rfl⟩ := List.mem_map.mp hq
+    exact isSome_lvlAt_take s.tree l k (hd.fmtp i l (Or.inl hi))
+  | call c hi hv => simp at ha
+  | acquire c hi hfree => simp at ha
+  | setFind l v hi => simp at ha
+  | setStore l v q todo hi => simp at ha
+  | setDone l v hi => simp at ha
+  | getRead l hi => simp at ha
+  | createFind l hi => simp at ha
+  | unlock after hi hna => simp at ha
+  | load p' val hi ho hl => simp at ha
+
+/-- **`context::get` is linearisable**: the value it returns is `levelOf` of the `set` calls whose critical
+sections precede its own -/
+theorem get_linearised (root : Level) (hr : Level.Valid root) {s : Sys} (h : Reachable root s) (i : Tid) (l : Loc)
+    (hi : s.ph i = .getRead l) : ctxGet s.tree l = levelOf root s.done l := by
+  have hd := DInv.of_reachable hr h
+  have hinv := hd.quiet (hd.noStore_of_holder (i := i) (by rw [hi]; rfl) (by simp [hi]))
+  unfold ctxGet
+  rw [hinv.getInt l]
+  exact fromInt_convertLevel (levelOf_valid hr hd.doneValid l)
+
+
+/-- **every observed level is justified**: a value returned by any atomic level load — the locked one of `get`
+or the unlocked one of `object::level/enabled/log` — is the specified level of the loaded node under a
+linearisation of the overlapping calls: all `set`s whose critical sections are complete, optionally followed
+by the one `set` that is in its store loop at that moment. -/
+theorem observed_level_justified (root : Level) (hr : Level.Valid root) {s s' : Sys} {i : Tid} {acc : List Access}
+    (h : Reachable root s) (st : Step s i acc s') (p : Loc) (x : Nat) (ha : Access.atomicLoad p x ∈ acc) :
+    x = convertLevel (levelOf root s.done p) ∨
+    ∃ j l v todo, s.ph j = .setStore l v todo ∧ x = convertLevel (levelOf root (s.done ++ [(l, v)]) p) := by
+  have hd := DInv.of_reachable hr h
+  have main : ∀ (p : Loc) (x : Nat), lvlAt s.tree p = some x →
+      (x = convertLevel (levelOf root s.done p) ∨
+       ∃ j l v todo, s.ph j = .setStore l v todo ∧ x = convertLevel (levelOf root (s.done ++ [(l, v)]) p)) := by
+    intro p x hl
+    by_cases hn : NoStore s
+    · exact Or.inl ((hd.quiet hn).level p x hl)
+    · have hex : ∃ j l v todo, s.ph j = .setStore l v todo := by
+        apply Classical.byContradiction
+        intro hne
+        exact hn (fun j l v todo hj => hne ⟨j, l, v, todo, hj⟩)
+      obtain ⟨j, l, v, todo, hj⟩ := hex
+      rcases (hd.mid j l v todo hj).level p x hl with h1 | ⟨h1, h2⟩
+      · exact Or.inl h1
+      · exact Or.inr ⟨j, l, v, todo, hj, by rw [levelOf_append]; simp [h1, h2]⟩
+  cases st with
+  | getRead l hi =>
+    simp only [List.mem_cons, List.not_mem_nil, or_false] at ha
+    rcases ha with ha | ha
+    · simp at ha
+    · injection ha with h1 h2; subst h1 h2
+      exact main _ _ (lvlAt_deepest s.tree l)
+  | load p' val hi ho hl =>
+    simp only [List.mem_singleton] at ha
+    injection ha with h1 h2; subst h1 h2
+    exact main _ _ hl
+  | call c hi hv => simp at ha
+  | acquire c hi hfree => simp at ha
+  | setFind l v hi => simp at ha
+  | setStore l v q todo hi => simp at ha
+  | setDone l v hi => simp at ha
+  | createFind l hi => simp at ha
+  | unlock after hi hna => simp at ha
+  | format l hi => simp at ha
+
+/-- in a state where no `set` is in its store loop (in particular whenever the mutex is free), the tree is
+exactly what the sequential specification says for the linearised history -/
+theorem quiescent_tree_matches_linearisation (root : Level) (hr : Level.Valid root) {s : Sys} (h : Reachable root s)
+    (hq : s.holder = none) (loc : Loc) : ctxGet s.tree loc = levelOf root s.done loc := by
+  have hd := DInv.of_reachable hr h
+  have hn : NoStore s := by
+    intro j l v todo hj
+    have := (hd.excl j).mp (by rw [hj]; rfl)
+    rw [hq] at this; simp at this
+  unfold ctxGet
+  rw [(hd.quiet hn).getInt loc]
+  exact fromInt_convertLevel (levelOf_valid hr hd.doneValid loc)
+
+/-! non-vacuity of the concurrent model: a thread can really be inside the store loop while another one owns
+an object (so the second disjunct of `observed_level_justified` is inhabited) -/
+example : ∃ s, Reachable (some 3) s ∧ s.holder = some 0 ∧ (s.ph 0).holds = true := by
+  let s0 := Sys.init (some 3)
+  have r0 : Reachable (some 3) s0 := .init
+  have r1 := Reachable.step r0 (Step.call s0 0 (.set ["a"] (some 1)) rfl (by intro l v h; injection h with _ h; subst h; intro x hx; cases hx; decide))
+  have r2 := Reachable.step r1 (Step.acquire _ 0 (.set ["a"] (some 1)) (by simp [upd]) rfl)
+  exact ⟨_, r2, rfl, by simp [upd, Call.locked, Phase.holds]⟩
+
+end Fcppt.C19
